@@ -462,7 +462,7 @@ func (p *forStmt) End(cb *CodeBuilder, src ast.Node) {
 		cb.endBlockStmt(&p.old)
 	}
 	cb.emitStmt(&target.ForStmt{
-		Init: p.init, Cond: p.cond, Post: post, Body: p.handleFor(p.body, 0),
+		Init: checkHeaderStmt(p.init), Cond: checkHeaderExpr(p.cond), Post: checkHeaderStmt(post), Body: p.handleFor(p.body, 0),
 	})
 }
 
